@@ -68,13 +68,16 @@ contract(T + 'lookup_typenode',
          raises={'KeyError': 'maybe'},
          ensures={'no_giname_none': "implies(not typeobj.target_giname, result is None)",
                   'registered': "result is None or result.namespace is not None",
-                  'same_as_by_name': "implies(bool(typeobj.target_giname), result is self.lookup_giname(typeobj.target_giname))"},
+                  'same_as_by_name': "implies(bool(typeobj.target_giname), result is self.lookup_giname(typeobj.target_giname))",
+                  'a_namespace_member': "not isinstance(result, (ast.Property, ast.Signal, ast.VFunction))"},
          note='namespace tables are not modelled: result is an uninterpreted function of target_giname')
 contract(T + 'lookup_giname',
          params={'self': 'Transformer', 'name': 'str'},
          returns='Node?', pure_keys=['name'], trusted=True, raises={'KeyError': 'maybe'},
-         ensures={'registered': "result is None or result.namespace is not None"},
-         note='same uninterpreted function family as lookup_typenode')
+         ensures={'registered': "result is None or result.namespace is not None",
+                  'a_namespace_member': "not isinstance(result, (ast.Property, ast.Signal, ast.VFunction))"},
+         note='same uninterpreted function family as lookup_typenode; properties, signals and virtual functions live inside '
+              'classes and are never found by a namespace lookup')
 contract(T + 'resolve_aliases',
          params={'self': 'Transformer', 'typenode': 'Node|Type?'},
          returns='Node|Type?', pure_keys=['typenode'], trusted=True,
